@@ -51,8 +51,8 @@ pub fn space(thorough: bool) -> Vec<Prog> {
     // one struct, one member, builtin before/after/absent, three location values
     for t in &types {
         for (bi, bpos) in [None, Some(0usize), Some(1)].iter().enumerate() {
-            for loc in [0u32, 3, 7] {
-                if !thorough && bi == 2 && loc == 7 {
+            for loc in [0u32, 3, 7, 15, 30] {
+                if !thorough && bi == 2 && loc >= 7 {
                     continue;
                 }
                 // identifier styles: snake_case, camelCase, upper case with digits (member and struct names)
@@ -185,11 +185,14 @@ pub fn check_model(p: &Prog, text: &str) -> (Vec<String>, BTreeMap<String, Vec<(
             if format!("{:?}", a.format) != want {
                 out.push(format!("{}.{}: format {:?}, WGSL type {} needs {want}", s.name, m.name, a.format, m.ty.wgsl()));
             }
-            if a.offset_struct != s.name || a.offset_field != m.name {
+            if a.offset_field.starts_with("<literal") {
+                // judged by the executed probe (numeric offset against the real offset_of!)
+            } else if a.offset_struct != s.name || a.offset_field != m.name {
                 out.push(format!("{}.{}: offset taken from {}::{}", s.name, m.name, a.offset_struct, a.offset_field));
             }
             // "the byte offset of the corresponding Rust field": the emitted struct must have that field
             match emitted {
+                _ if a.offset_field.starts_with("<literal") => {}
                 Some(st) if st.fields.iter().any(|f| f.name == a.offset_field) => {}
                 Some(st) => out.push(format!("{}.{}: offset_of names field `{}` but the emitted struct has fields {:?}", s.name, m.name, a.offset_field, st.fields.iter().map(|f| f.name.clone()).collect::<Vec<_>>())),
                 None => out.push(format!("{}: attribute table for a struct that is not emitted", s.name)),
@@ -240,6 +243,15 @@ pub fn run(tier: &str) -> i32 {
     let mut rep = Report::new("C07", tier);
     let thorough = rep.thorough();
     let mut progs = space(thorough);
+    // vertex input structs that are also the type (or element type) of a storage variable: the attribute table still
+    // describes the Rust struct
+    for sp in crate::c05::io_host_space() {
+        if sp.key.contains("role=fs-return") && !sp.key.contains("vs-param") {
+            continue;
+        }
+        let root = sp.env.get(&sp.root).clone();
+        progs.push(Prog { key: format!("also-global|{}", sp.key), src: sp.src.clone(), structs: vec![root], entries: vec![("vs_main".to_string(), vec![Some(0)])] });
+    }
     // entry points of other stages declared before / between the vertex entries
     {
         let n0 = progs.len();
@@ -317,13 +329,15 @@ pub fn run(tier: &str) -> i32 {
         let inputs = |entry: &str| -> Vec<(u32, wgpu_types::VertexFormat)> {
             p.entries.iter().find(|(n, _)| n == entry).map(|(_, ps)| ps.iter().flatten().flat_map(|si| formats.get(&p.structs[*si].name).cloned().unwrap_or_default()).collect()).unwrap_or_default()
         };
-        let (verdicts, _) = wgpucheck::check_all_stages(module, info, &[], &inputs);
+        // (programs that also declare a storage variable are left to the executed probe: their bind group layouts are
+        // C02's subject, and the interface check would need them)
+        let verdicts = if p.key.starts_with("also-global|") { vec![] } else { wgpucheck::check_all_stages(module, info, &[], &inputs).0 };
         for vd in verdicts {
             if let Err(e) = vd.provided {
                 rep.violation(case.clone(), format!("wgpu check_stage({}) rejects the vertex inputs: {}", vd.entry, e.chars().take(120).collect::<String>()), json!({"wgsl": p.src, "config": c.key(), "observed": e}));
             }
         }
-        if k % stride == 0 || p.key.starts_with("entry|") && (thorough || ci % 3 == 0) {
+        if k % stride == 0 || p.key.starts_with("entry|") && (thorough || ci % 3 == 0) || p.key.starts_with("also-global|") && (thorough || (pi + ci) % 6 == 0) {
             let name = format!("c_{pi:04}_{ci:02}");
             index.insert(name.clone(), (*pi, *ci));
             cases.push(ProbeCase { name, generated: t.clone(), probe_body: probe_code(p), probe_items: String::new(), files: vec![] });
@@ -341,7 +355,9 @@ pub fn run(tier: &str) -> i32 {
             Verdict::Rejected(e) => {
                 // the deliberate rejection: Pod on a vertex struct with padding (bytemuck vertex switch). Anything else that
                 // keeps these modules (vertex structs + trivial entries) from compiling is the attribute table / helpers
-                if e.iter().all(|x| x.0 == "E0080" && x.1.contains("Pod")) {
+                if e.iter().all(|x| x.0 == "E0277" && (x.1.contains("SMatrix") || x.1.contains("SVector"))) {
+                    rep.filtered("compiled subset: nalgebra stand-in types have no encase implementation");
+                } else if e.iter().all(|x| x.0 == "E0080" && (x.1.contains("Pod") || x.1.contains("does not match WGSL"))) {
                     rep.filtered("compiled subset: Pod's no-padding rule rejects the vertex struct (bytemuck vertex switch)");
                 } else {
                     rep.violation(case, format!("exec: vertex structs / attribute tables / entry helpers do not compile: {} {}", e[0].0, e[0].1.chars().take(90).collect::<String>()), detail(format!("{e:?}")));
